@@ -345,6 +345,38 @@ def check_generator(run, rowsem, pats, gkey, tag, used):
             p = _note(run, f"{tag}_{nm}", {"scalar": hex(s_val), "returned": [hex(x) for x in got],
                                           "native_sG": [hex(x) for x in want], "driver": gargs})
             run.violations.append((f"{tag}/honest-point/{nm}", p))
+    # ---- the output of the last round is unique given everything else (honest values pinned):
+    # a second solution is a verifying assignment that returns another point for the same scalar
+    for nm, s_val in pts[:2] + pts[3:4]:
+        lh, _ = extract(run, gargs, env={"s": "%064x" % s_val})
+        if "error" in lh.returned:
+            continue
+        q = xe.Query()
+        last = shape.fixed[-1]
+        xe.encode_layout(q, rowsem, lh, rows=[last])
+        free = {shape.ax[n], shape.ay[n]}
+        for i in set(lh.gates[last][1]) | set(lh.gates[last + 1][1]):
+            v = q.var(xe.wname(i))
+            if i not in free:
+                q.add(f"(= {v} {lh.witnesses[i]})")
+        fx, fy = q.var(xe.wname(shape.ax[n])), q.var(xe.wname(shape.ay[n]))
+        q.add(f"(not (and (= {fx} {lh.witnesses[shape.ax[n]]}) (= {fy} {lh.witnesses[shape.ay[n]]})))")
+
+        def pick_none(model):
+            raise ValueError("unused")
+
+        def rp(model, lh=lh, s_val=s_val):
+            full = {smt.vname(xe.wname(i)): v for i, v in enumerate(lh.witnesses)}
+            full.update({k: v for k, v in model.items() if k in (smt.vname(xe.wname(shape.ax[n])),
+                                                                  smt.vname(xe.wname(shape.ay[n])))})
+            pt = (full[smt.vname(xe.wname(shape.ax[n]))] % R, full[smt.vname(xe.wname(shape.ay[n]))] % R)
+
+            def violated(_m):
+                want = jj.mul(s_val, gen)
+                return pt != want, {"s": hex(s_val), "returned": [hex(pt[0]), hex(pt[1])],
+                                    "native_sG": [hex(want[0]), hex(want[1])]}
+            return gadget_replay(run, gargs, lh, violated)(full)
+        run.query(f"{tag}/last-round-unique/{nm}", q, "unsat", "gadget-soundness", replay=rp)
     # non-canonical scalars are refused natively
     for nm, s_val in (("rj", RJ), ("rj+1", RJ + 1), ("2^252-1", (1 << 252) - 1), ("2^252", 1 << 252), ("q-1", R - 1)):
         lh, _ = extract(run, gargs, env={"s": "%064x" % s_val})
@@ -399,12 +431,15 @@ def run(run):
     rowsem = load_rowsem(run)
     pats = range_patterns(run)
     used = set()
-    gens = [("1", "G"), ("nums", "Gnums")] if run.tier == "quick" else \
+    gens = [("1", "G"), ("nums", "Gnums"), ("12345", "12345G")] if run.tier == "quick" else \
         [("1", "G"), ("nums", "Gnums"), ("2", "2G"), ("12345", "12345G"), ("18446744073709551615", "maxG")]
-    if len(rowsem.comp.get("fixed", [])) != 4:
-        run.inconclusive.append("fixed-base widget does not split into 4 components")
-        return
-    point_step(run, rowsem)
+    if len(rowsem.comp.get("fixed", [])) == 4:
+        point_step(run, rowsem)
+    else:
+        # fewer independent components than the four documented identities: the per-round
+        # uniqueness queries below decide whether a second output point exists
+        run.notes.append(f"fixed-base widget splits into {len(rowsem.comp.get('fixed', []))} components (expected 4)")
+        run.extra["fixed_components"] = len(rowsem.comp.get("fixed", []))
     for gkey, tag in gens:
         check_generator(run, rowsem, pats, gkey, tag, used)
     summary_lemmas(run, rowsem, pats, used)
